@@ -22,7 +22,8 @@
 //   - uses: every occurrence of the variables that hold a component, a gater / deadliner / verifier
 //     function value, a map or a cluster.NodeIdx: what is done with it (argument i of which call,
 //     method called, …) — a second producer into the Broadcaster, or a share index going to the wrong
-//     consumer, shows up here.
+//     consumer, shows up here. (Listed for the variables that are an argument — or the root of one — of a
+//     listed call, that receive a listed call's result, or that are written into such a variable.)
 //   - wireSites: every non-test file of the repository that refers to core.Wire; wireParams: the
 //     parameters of core.Wire; plainReturns: the non-error returns of the functions that contain a
 //     listed call.
@@ -31,11 +32,18 @@
 // each function the first variable of a name keeps it and the k-th shadowing one is printed `name'k`
 // (except err / ok / _), so a text denotes the same variables wherever it appears in that function;
 // white space is collapsed; a text longer than 150 characters is cut and given a hash of the whole.
+// In the Lean file every text is ONE number (0x01 followed by its UTF-8 bytes; the text is in the comment
+// before it): the kernel compares numbers fast and String values very slowly. The keys the tables are
+// searched by (function, package, variable names) are stored in place, all other texts in the table `strs`.
 //
 // Fails closed (exit 1, nothing written, a stale output file removed by vlib/trans_appwire.py): a
 // listed function used other than by calling it directly (function value, go/defer of a value, method
 // expression), a needed variable defined by a construct the tool does not model (type switch binding),
 // a package that does not type-check, dot imports of a watched package, generic or method wiring functions.
+//
+// Not modelled (trusted): what the callees do with what they are given (a function that receives `lock`
+// or `&conf` could change it: the analysis is per function, plus the argument / parameter correspondence
+// of the listed calls); values smuggled through struct fields, channels or package-level variables.
 package main
 
 import (
@@ -701,21 +709,21 @@ func (f *fnCtx) path(n ast.Node) []string {
 // tables
 
 type argRow struct {
-	expr, ty  int
-	v, root   int // vars index or -1
-	call      int // calls index or -1
-	isVar     bool
-	node      ast.Expr
+	expr, ty int
+	v, root  int // vars index or -1
+	call     int // calls index or -1
+	isVar    bool
+	node     ast.Expr
 }
 
 type callRow struct {
 	fn, pkg, name string
-	path       []int
-	args       []argRow
-	spread     bool
-	node       ast.Node
-	pos        token.Pos
-	f          *fnCtx
+	path          []int
+	args          []argRow
+	spread        bool
+	node          ast.Node
+	pos           token.Pos
+	f             *fnCtx
 }
 
 type defRow struct {
@@ -1423,7 +1431,8 @@ func main() {
 	// operations very slowly, and long lists of numerals elaborate slowly); the text itself is shown in a
 	// line comment before its number.
 	var sb strings.Builder
-	q := func(s string) string { return fmt.Sprint(intern(s)) }
+	q := func(s string) string { return fmt.Sprint(intern(s)) }           // interned: index into strs
+	t := func(s string) string { return fmt.Sprintf("0x1%x", []byte(s)) } // inline text
 	optNat := func(i int) string {
 		if i < 0 {
 			return "none"
@@ -1446,8 +1455,8 @@ func main() {
 	sb.WriteString(`/-- a text: the number whose base-256 digits are 1 followed by the UTF-8 bytes of the text. -/
 abbrev Txt := Nat
 
-/-- one argument of a listed call: text and static type, the variable it is rooted at (index into `+"`vars`"+`;
-`+"`isVar`"+`: it is exactly that variable), the listed call it is (index into `+"`calls`"+`). -/
+/-- one argument of a listed call: text and static type, the variable it is rooted at (index into ` + "`vars`" + `;
+` + "`isVar`" + `: it is exactly that variable), the listed call it is (index into ` + "`calls`" + `). -/
 structure Arg where
   expr  : Nat
   ty    : Nat
@@ -1457,11 +1466,12 @@ structure Arg where
 deriving Repr
 
 /-- a listed call: enclosing function, package and name of the called function, enclosing constructs
-(outermost first), arguments, whether the last argument is passed as `+"`xs...`"+`. -/
+(outermost first), arguments, whether the last argument is passed as ` + "`xs...`" + `. ` + "`fn`, `pkg`, `name`" + ` are texts
+(the keys the tables are searched by are stored in place), everything else is an index into ` + "`strs`" + `. -/
 structure Call where
-  fn     : Nat
-  pkg    : Nat
-  name   : Nat
+  fn     : Txt
+  pkg    : Txt
+  name   : Txt
   path   : List Nat
   args   : List Arg
   spread : Bool
@@ -1478,17 +1488,19 @@ structure Def where
 deriving Repr
 
 structure Var where
-  fn   : Nat
-  name : Nat
+  fn   : Txt
+  name : Txt
   ty   : Nat
   kind : Nat
   defs : List Def
   addrTaken : Bool
 deriving Repr
 
-/-- `+"`v.f = e`, `v[k] = e`"+` (table `+"`writes`"+`) or `+"`y := v`, `y = &v`, `y := *v`"+` (table `+"`aliases`"+`, `+"`lhs`"+` is y). -/
+/-- ` + "`v.f = e`, `v[k] = e`" + ` (table ` + "`writes`" + `) or ` + "`y := v`, `y = &v`, `y := *v`" + ` (table ` + "`aliases`" + `, ` + "`lhs`" + ` is y). -/
 structure Write where
   var    : Nat
+  fn     : Txt
+  name   : Txt
   path   : List Nat
   lhs    : Nat
   rhs    : Nat
@@ -1497,6 +1509,8 @@ deriving Repr
 
 structure Use where
   var  : Nat
+  fn   : Txt
+  name : Txt
   path : List Nat
   role : Nat
 deriving Repr
@@ -1509,7 +1523,7 @@ deriving Repr
 		for _, a := range c.args {
 			as = append(as, fmt.Sprintf("⟨%d, %d, %s, %s, %s⟩", a.expr, a.ty, optNat(a.root), leanBool(a.isVar), optNat(a.call)))
 		}
-		fmt.Fprintf(&tb, "  -- %d: in %s: %s.%s\n  ⟨%s, %s, %s, %s, [%s], %s⟩%s\n", i, c.fn, c.pkg, c.name, q(c.fn), q(c.pkg), q(c.name), natList(c.path),
+		fmt.Fprintf(&tb, "  -- %d: in %s: %s.%s\n  ⟨%s, %s, %s, %s, [%s], %s⟩%s\n", i, c.fn, c.pkg, c.name, t(c.fn), t(c.pkg), t(c.name), natList(c.path),
 			strings.Join(as, ", "), leanBool(c.spread), sep(i, len(calls)))
 	}
 	tb.WriteString("]\n\n")
@@ -1519,29 +1533,29 @@ deriving Repr
 		for _, d := range v.defs {
 			ds = append(ds, fmt.Sprintf("⟨%s, %d, %d, %s, %d⟩", natList(d.path), d.rhs, d.res, optNat(d.call), d.callee))
 		}
-		fmt.Fprintf(&tb, "  -- %d: %s in %s\n  ⟨%s, %s, %d, %s, [%s], %s⟩%s\n", i, v.name, v.fn, q(v.fn), q(v.name), v.ty, q(v.kind),
+		fmt.Fprintf(&tb, "  -- %d: %s in %s\n  ⟨%s, %s, %d, %s, [%s], %s⟩%s\n", i, v.name, v.fn, t(v.fn), t(v.name), v.ty, q(v.kind),
 			strings.Join(ds, ", "), leanBool(v.addr), sep(i, len(vars)))
 	}
 	tb.WriteString("]\n\n")
 	tb.WriteString("def writes : List Write := [\n")
 	for i, w := range writeRows {
-		fmt.Fprintf(&tb, "  ⟨%d, %s, %d, %d, %s⟩%s\n", w.v, natList(w.path), w.lhs, w.rhs, optNat(w.rhsVar), sep(i, len(writeRows)))
+		fmt.Fprintf(&tb, "  ⟨%d, %s, %s, %s, %d, %d, %s⟩%s\n", w.v, t(vars[w.v].fn), t(vars[w.v].name), natList(w.path), w.lhs, w.rhs, optNat(w.rhsVar), sep(i, len(writeRows)))
 	}
 	tb.WriteString("]\n\n")
 	tb.WriteString("def aliases : List Write := [\n")
 	for i, w := range aliasRows {
-		fmt.Fprintf(&tb, "  ⟨%d, %s, %d, %d, %s⟩%s\n", w.v, natList(w.path), w.lhs, w.rhs, optNat(w.rhsVar), sep(i, len(aliasRows)))
+		fmt.Fprintf(&tb, "  ⟨%d, %s, %s, %s, %d, %d, %s⟩%s\n", w.v, t(vars[w.v].fn), t(vars[w.v].name), natList(w.path), w.lhs, w.rhs, optNat(w.rhsVar), sep(i, len(aliasRows)))
 	}
 	tb.WriteString("]\n\n")
 	tb.WriteString("def uses : List Use := [\n")
 	for i, u := range useRows {
-		fmt.Fprintf(&tb, "  ⟨%d, %s, %d⟩%s\n", u.v, natList(u.path), u.role, sep(i, len(useRows)))
+		fmt.Fprintf(&tb, "  ⟨%d, %s, %s, %s, %d⟩%s\n", u.v, t(vars[u.v].fn), t(vars[u.v].name), natList(u.path), u.role, sep(i, len(useRows)))
 	}
 	tb.WriteString("]\n\n")
 	tb.WriteString("/-- non-error returns of the functions that contain a listed call: (function, path, text). -/\n")
-	tb.WriteString("def plainReturns : List (Nat × List Nat × Nat) := [\n")
+	tb.WriteString("def plainReturns : List (Txt × List Nat × Nat) := [\n")
 	for i, r := range rets {
-		fmt.Fprintf(&tb, "  (%s, %s, %d)%s\n", q(r.fn), natList(r.path), r.txt, sep(i, len(rets)))
+		fmt.Fprintf(&tb, "  (%s, %s, %d)%s\n", t(r.fn), natList(r.path), r.txt, sep(i, len(rets)))
 	}
 	tb.WriteString("]\n\n")
 	tb.WriteString("/-- parameters of `core.Wire`: (name, type). -/\n")
@@ -1656,6 +1670,9 @@ func scanWireSites(repo string) []string {
 		src, err := os.ReadFile(path)
 		if err != nil {
 			return err
+		}
+		if strings.HasPrefix(fi.Name(), "verif_export") && bytes.HasPrefix(src, []byte("//go:build verif")) {
+			return nil // hook of the verification harness: not part of the production build
 		}
 		if !bytes.Contains(src, []byte("Wire")) {
 			return nil
